@@ -149,6 +149,17 @@ def task_minify():
         interp.hooks['python_minifier.rename.renamer:rename'] = stage('rename')
         interp.hooks['python_minifier.transforms.remove_posargs:remove_posargs'] = stage('remove_posargs')
         interp.hooks[PM + ':unparse'] = stage('unparse')
+
+        def find_all_hook(it, f, a, k):
+            # not called by minify() today; by contract: a list of unknown length (the literal entries of __all__)
+            lst = ctx.new_obj('list', name=ctx.fresh('names_in___all__'))
+            ld = ctx.data(lst)
+            ld.items = {}
+            ld.symlen = z3.Int(ctx.fresh('n_names_in___all__'))
+            ctx.assume(ld.symlen >= 0)
+            ld.elem_factory = lambda key: z3.String(ctx.fresh('name_in___all__'))
+            return lst
+        interp.hooks['python_minifier.rename.util:find__all__'] = find_all_hook
         interp.hooks[PM + ':_find_shebang'] = stage('_find_shebang')
 
         def call_hook(it, f, args, kwargs):
@@ -432,3 +443,39 @@ def task_defaults():
                 'detail': pyast.unparse(d) if d is not None else 'missing', 'model': {}, 'time_s': 0, 'backend': 'eval', 'path': None, 'kind': 'post', 'goal': None})
     return result(obs, [source.describe(PM + ':minify'), source.describe(PM + '.transforms.remove_annotations_options:RemoveAnnotationsOptions.__init__')],
                   ['documentation pages docs/source/transforms/*.rst are the reference for defaults'], notes=['documented defaults: %r' % (documented,)])
+
+
+
+def task_awslambda():
+    """awslambda(source, filename, entrypoint): globals are renamed exactly when an entrypoint is named, and the entrypoint is the preserved global (C10, C04)."""
+    pm = source.import_module(PM)
+    name = 'C10/awslambda'
+
+    def run(ctx):
+        from pyvc.interp import Interp, Policy
+        interp = Interp(ctx, policy=Policy())
+        has_entry = ctx.branch(z3.Bool('entrypoint_given'))
+        entry = z3.String('entrypoint') if has_entry else None
+        src, fn = z3.String('source'), z3.String('filename')
+        calls = []
+        res = z3.String('minify_result')
+        interp.hooks[PM + ':minify'] = lambda it, f, a, k: (calls.append((list(a), dict(k))), res)[1]
+        r = interp.call(interp.wrap(pm.awslambda), [src, fn, entry], {})
+        ctx.check(name + '/calls-minify-once-and-returns-its-result', len(calls) == 1 and r is res, kind='post')
+        if len(calls) != 1:
+            return
+        a, k = calls[0]
+        rg = k.get('rename_globals')
+        rgz = rg if z3.is_expr(rg) else z3.BoolVal(bool(rg))
+        ctx.check('C04/awslambda/globals-are-renamed-exactly-when-an-entrypoint-is-named', rgz == z3.BoolVal(has_entry), kind='post', detail='rename_globals=%r' % (rg,))
+        pg = k.get('preserve_globals')
+        items = ctx.data(pg).items if hasattr(pg, 'id') else None
+        ctx.check(name + '/the-entrypoint-is-the-preserved-global', items is not None and len(items) == 1 and (items[0] is entry), kind='post', detail=repr(items))
+        ctx.check(name + '/source-and-filename-are-passed-through', len(a) >= 2 and a[0] is src and a[1] is fn, kind='post')
+    ex = Explorer()
+    ex.explore(run)
+    res = result([o.to_json() for o in ex.obligations], [source.describe(PM + ':awslambda')], ASSUMPTIONS)
+    if ex.undecided_reason:
+        res['obligations'].append({'name': name + '/engine', 'status': 'undecided', 'detail': ex.undecided_reason, 'model': {}, 'time_s': 0, 'backend': 'engine', 'path': None,
+                                   'kind': 'engine', 'goal': None})
+    return res
